@@ -46,6 +46,10 @@ def sign(x):
     return -1 if x < 0 else 1
 
 
+import itertools as _it
+_PERMS = list(_it.permutations(range(6)))
+
+
 def check_tuple(acc, pendulum, kw, absolute=False):
     y, mo = kw.get("years", 0), kw.get("months", 0)
     rest = rest_us(kw)
@@ -135,6 +139,17 @@ def check_tuple(acc, pendulum, kw, absolute=False):
                 (d.years, d.months, d.weeks, d.remaining_days, d.hours, d.minutes, d.remaining_seconds,
                  d.microseconds):
             acc.mismatch("rebuild", "from-components", case, [obs.td_us(rb), repr(rb)], [obs.td_us(d), repr(d)])
+        # the component getters are lazily cached: a FRESH instance read in another order (one of the 720 orders,
+        # chosen by the tuple, so that all orders occur across the enumeration) must report the same components
+        names = ("weeks", "remaining_days", "hours", "minutes", "remaining_seconds", "microseconds")
+        order = _PERMS[(abs(total) + len(kw) * 131) % len(_PERMS)]
+        fresh = pendulum.Duration(**kw)
+        got_o = {}
+        for i_ in order:
+            got_o[names[i_]] = getattr(fresh, names[i_])
+        acc.c["evaluations"] += 1
+        if got_o != comp:
+            acc.mismatch("components", "accessor-order", dict(case, order=[names[i_] for i_ in order]), got_o, comp)
         # the library's own rebuilds from components: deepcopy, negation twice, the reduce protocol
         for lbl, mk in (("deepcopy", lambda: copy.deepcopy(d)), ("neg-neg", lambda: -(-d)), ("reduce", lambda: (lambda r: r[0](*r[1]))(d.__reduce__()))):
             acc.c["evaluations"] += 1
